@@ -4,3 +4,4 @@ INVARIANT Homomorphism
 INVARIANT ShortenLaws
 INVARIANT UnitLaws
 INVARIANT SeparatorLaws
+INVARIANT MarshalRoundTrip
